@@ -223,7 +223,14 @@ def rule_emission(run, F, cfg):
                     continue
                 tm2 = re.search(r'Arguments::new\((b"[^"]*")', ce)
                 leaves2 = set(x for x in c.deep_origins(ct["args"][1]) if x.startswith("arg:"))
-                if tm and tm2 and tm.group(1) == tm2.group(1) and leaves and leaves == leaves2:
+                # the SAME text: same template, same leaves, and the same functions applied to them on the way (a name
+                # that is escaped for the emission but not for the test is a different string for every name that needs
+                # escaping)
+                def applied(op_):
+                    e_ = re.sub(r"<[^<>]*>", "", c.expr_operand(op_, 40))
+                    return sorted(x for x in re.findall(r"([\w:]+)\(", e_) if not re.search(r"as_ref$|must_use$|Deref", x))
+                fns_a, fns_b = applied(t["args"][1]), applied(ct["args"][1])
+                if tm and tm2 and tm.group(1) == tm2.group(1) and leaves and leaves == leaves2 and fns_a == fns_b:
                     ok = True
             run.ob("C17.3.exception-on-every-emission", f"simple-emission#{n}", ok,
                    f"a simple selector is emitted only under !exceptions.contains(<the same formatted "
